@@ -577,6 +577,13 @@ def rule_r3(ctx) -> List[R.Inst]:
         a = [n for n in walk_no_nested(fn.node) if isinstance(n, ast.Assign) and isinstance(n.targets[0], ast.Attribute) and
              n.targets[0].attr == slot]
         key = f"rebuild:{slot}"
+        if len(a) == 1:
+            # (the list class named first: cls = type(m.hits); m.hits = cls.from_dict(hits))
+            v_ = inline_locals(fn.node, a[0].value)
+            if unparse(v_) != unparse(a[0].value) and isinstance(v_, ast.Call) and v_.args and isinstance(a[0].value, ast.Call) and a[0].value.args:
+                v_.args[0] = a[0].value.args[0]       # the record list itself stays a name (its role is decided by _sinks)
+                a = [ast.copy_location(ast.Assign(targets=a[0].targets, value=v_), a[0])]
+                ast.fix_missing_locations(a[0])
         if len(a) == 1 and isinstance(a[0].value, ast.Call) and call_name(a[0].value) == "from_dict" and \
                 unparse(a[0].value.func.value) in (f"type({p0}.{slot})", f"{p0}.{slot}.__class__") and \
                 a[0].value.args and isinstance(a[0].value.args[0], ast.Name) and _sinks(fn).get(a[0].value.args[0].id) == slot:
